@@ -55,6 +55,10 @@ func genElecConc(seed uint64, prop string) *Scenario {
 		if r.IntN(2) == 0 {
 			sc.Steps = append(sc.Steps, Step{T: "probe", Sess: s})
 		}
+		if r.IntN(2) == 0 {
+			// the session leaves while others may still be announcing
+			sc.Steps = append(sc.Steps, Step{T: "leave", Sess: s, A: r.IntN(2)})
+		}
 	}
 	return sc
 }
@@ -163,6 +167,15 @@ func runElecConc(e *env) {
 					last = &id
 					anns = append(anns, id)
 					hist = append(hist, porcupine.Operation{ClientId: sn, Input: elecIn{sess: sn, announce: true, id: id}, Call: call, Output: elecOut{reported: [2]uint64{r.GetElectionId().GetHigh(), r.GetElectionId().GetLow()}}, Return: ret})
+				case "leave":
+					if st.A == 0 {
+						s.mc.CloseSend()
+					} else {
+						s.mc.Stream().Cancel()
+					}
+					s.closed = true
+					e.probe("session left while others were active")
+					return
 				case "probe":
 					if last == nil {
 						continue
@@ -194,7 +207,7 @@ func runElecConc(e *env) {
 	}
 	simrt.AwaitQuiescence("conc-end")
 	if len(failures) > 0 {
-		e.report("C11", "unanswered", "announcement or probe got no proper response", fmt.Sprint(failures), false)
+		e.report("C11", "unanswered", "announcement or probe got no proper response", fmt.Sprint(failures)+"\n"+e.sim.Describe(), false)
 	}
 	// overlapping operations?
 	overlap := false
@@ -247,7 +260,15 @@ func runElecConc(e *env) {
 				e.report("C11", "quiescent-election", "reported election id is not the maximum announced", fmt.Sprintf("maximum announced %v, server %v", mx, id), false)
 			})
 		} else if vs, ok := e.srv.VerifSessions()[master]; !ok {
-			e.report("C11", "quiescent-election", "primary is not a live session", master, false)
+			left := false
+			for _, s := range streams {
+				if s.closed {
+					left = true
+				}
+			}
+			if !left {
+				e.report("C11", "quiescent-election", "primary is not a live session although nobody left", master, false)
+			}
 		} else {
 			// the primary must be a session that announced the maximum at some point
 			_ = vs
